@@ -73,6 +73,7 @@ package tsi
 // Listing tag values: the remaining index rows of a tag value may be skipped (seek to the next value) only
 // after that value has been accepted for the result - a row without an eligible series id says nothing about
 // the later rows of the same value.
+//@ prop C10 C13
 //@ func (*indexSearch).searchTagValuesBySingleKey
 //@   ghost ex bool = false
 //@   call .NextItem
@@ -83,6 +84,7 @@ package tsi
 //@     set ex = ex && ret0
 //@   call .Seek with kb.B
 //@     requires [skip_only_accepted_value] ex
+//@ prop C10
 
 // One stable id per series: an id is (logical clock of this process life, 24 bits) . (sequence number, 40 bits),
 // so ids handed out in different lives of the index never collide even though the sequence restarts.
